@@ -37,7 +37,8 @@ func TestMain(m *testing.M) {
 		"two-way differential against a reference implementation written from docs/DesignAndArchitecture.md, docs/Metastore.md, docs/KeyManagementService.md and the cross-language features (own JSON codec with exact field names, AES-256-GCM laid out as ciphertext || 16-byte tag || 12-byte nonce straight from crypto/cipher, own key-id formatting; shares no code with the SDK). "+
 			"rapid draws payloads (incl. empty), partition / service / product ids, timestamps, revoked and rotated hierarchies and a carrier in {memory, SQL key_record text (mysql, postgres), DynamoDB item of SDK v1, DynamoDB item of SDK v2, each with region suffix on/off} plus the sidecar's protobuf mapping. "+
 			"SDK writes -> reference reads: the strict reference parsers (exact field names Key / Data / Created / ParentKeyMeta{KeyId,Created}, Revoked only when true, standard base64, no unknown fields; per-carrier row shapes) accept every record and key row the SDK emits, key ids equal _SK_service_product / _IK_partition_service_product[_region], and the reference decrypts to the payload from the raw rows alone. "+
-			"Reference writes -> SDK reads: the SDK decrypts records the reference built over rows the reference wrote in each carrier's documented shape, and adopts the reference-written key for its next encrypt. "+
+			"Reference writes -> SDK reads: the SDK decrypts records the reference built over rows the reference wrote in each carrier's documented shape, and adopts the reference-written key for its next encrypt; with a region-suffixing metastore the reference writer may sit in another region or predate the suffix (ids with another / no region component in the same table). "+
+			"Names contain % and other format-hostile characters; the master-key service takes 0-61 s of virtual time to wrap a system key (clock at sub-second offsets) and returns 60, 61, 62 or 100 bytes. "+
 			"One evaluation = one case (both directions on one carrier). Every case is non-trivial; distinct = (carrier, ids, payload length, hierarchy shape)",
 		"trusted base: my reading of the documentation embodied in the reference implementation; static KMS = AES-256-GCM under the static key with the same layout")
 }
@@ -260,25 +261,46 @@ func drawName(t *rapid.T, label string) string {
 }
 
 // slowKMS advances the virtual clock while a system key is being wrapped.
+// Its output is opaque to the SDK and need not be 60 bytes (the AWS KMS plugins return a JSON
+// envelope): pad extra bytes are appended to the static KMS's output and stripped again.
 type slowKMS struct {
 	appencryption.KeyManagementService
 	delay time.Duration
+	pad   int
 }
 
 func (s slowKMS) EncryptKey(c context.Context, b []byte) ([]byte, error) {
 	verifhook.Advance(s.delay)
-	return s.KeyManagementService.EncryptKey(c, b)
+	out, err := s.KeyManagementService.EncryptKey(c, b)
+	if err != nil {
+		return nil, err
+	}
+	return append(out, bytes.Repeat([]byte{0x5a}, s.pad)...), nil
 }
+
+func (s slowKMS) DecryptKey(c context.Context, b []byte) ([]byte, error) {
+	if len(b) < s.pad {
+		return nil, fmt.Errorf("short master-key ciphertext")
+	}
+	return s.KeyManagementService.DecryptKey(c, b[:len(b)-s.pad])
+}
+
+var refPad int // extra bytes of the master-key service's output in the current case
 
 func refKMSWrap(sk []byte) []byte {
 	ct, err := kit.GCMSeal([]byte(staticKey), sk)
 	if err != nil {
 		panic(err)
 	}
-	return ct
+	return append(ct, bytes.Repeat([]byte{0x5a}, refPad)...)
 }
 
-func refKMSUnwrap(ct []byte) ([]byte, error) { return kit.GCMOpen([]byte(staticKey), ct) }
+func refKMSUnwrap(ct []byte) ([]byte, error) {
+	if len(ct) < refPad {
+		return nil, fmt.Errorf("short master-key ciphertext")
+	}
+	return kit.GCMOpen([]byte(staticKey), ct[:len(ct)-refPad])
+}
 
 func TestTwoWayDifferential(t *testing.T) {
 	kit.Check(t, 2000, 64000, func(t *rapid.T) {
@@ -302,12 +324,20 @@ func TestTwoWayDifferential(t *testing.T) {
 		defer k.Close()
 		// the master-key service is a network call: time passes while it wraps a new system key
 		kmsDelay := rapid.SampledFrom([]time.Duration{0, 0, 0, 400 * time.Millisecond, time.Second, 61 * time.Second}).Draw(t, "kmsEncryptTakes")
+		refPad = rapid.SampledFrom([]int{0, 0, 1, 2, 40}).Draw(t, "kmsOutputExtraBytes")
 		newFactory := func() *appencryption.SessionFactory {
 			pol := appencryption.NewCryptoPolicy()
 			pol.CreateDatePrecision = time.Second
-			return appencryption.NewSessionFactory(&appencryption.Config{Service: service, Product: product, Policy: pol}, c.ms, slowKMS{k, kmsDelay}, aead.NewAES256GCM(), appencryption.WithSecretFactory(kit.NewTracker()))
+			return appencryption.NewSessionFactory(&appencryption.Config{Service: service, Product: product, Policy: pol}, c.ms, slowKMS{k, kmsDelay, refPad}, aead.NewAES256GCM(), appencryption.WithSecretFactory(kit.NewTracker()))
 		}
 		skID, ikID := kit.RefSKID(service, product, c.region), kit.RefIKID(part, service, product, c.region)
+		// with a region-suffixing metastore (global table) the rows and records of writers in ANOTHER region,
+		// or from before suffixes were switched on, are in the same table: ids "_IK_partition_service_product[_region]"
+		refRegion := c.region
+		if c.region != "" {
+			refRegion = rapid.SampledFrom([]string{c.region, c.region, "eu-west-1", ""}).Draw(t, "referenceWriterRegion")
+		}
+		refSkID, refIkID := kit.RefSKID(service, product, refRegion), kit.RefIKID(part, service, product, refRegion)
 		refFirst := rapid.Bool().Draw(t, "referenceWritesFirst")
 		verifhook.InstallClock(time.Unix(1_700_000_000+int64(rapid.IntRange(0, 1_000_000).Draw(t, "clock")), int64(rapid.SampledFrom([]int{0, 0, 300_000_000, 700_000_000, 999_999_000}).Draw(t, "clockNanos"))))
 		defer verifhook.RemoveClock()
@@ -319,15 +349,15 @@ func TestTwoWayDifferential(t *testing.T) {
 			// an older, revoked generation and a current one
 			skOld, skOldRow := kit.RefNewSK(refKMSWrap, refBase-7200)
 			skOldRow.Revoked = true
-			ikOld, ikOldRow, _ := kit.RefNewIK(skOld, skID, refBase-7200, refBase-7100)
+			ikOld, ikOldRow, _ := kit.RefNewIK(skOld, refSkID, refBase-7200, refBase-7100)
 			ikOldRow.Revoked = rapid.Bool().Draw(t, "oldIKRevoked")
 			sk, skRow := kit.RefNewSK(refKMSWrap, refBase-600)
-			ik, ikRow, _ := kit.RefNewIK(sk, skID, refBase-600, refBase-500)
+			ik, ikRow, _ := kit.RefNewIK(sk, refSkID, refBase-600, refBase-500)
 			for _, w := range []struct {
 				id      string
 				created int64
 				row     kit.RefEKR
-			}{{skID, refBase - 7200, skOldRow}, {ikID, refBase - 7100, ikOldRow}, {skID, refBase - 600, skRow}, {ikID, refBase - 500, ikRow}} {
+			}{{refSkID, refBase - 7200, skOldRow}, {refIkID, refBase - 7100, ikOldRow}, {refSkID, refBase - 600, skRow}, {refIkID, refBase - 500, ikRow}} {
 				if err := c.put(w.id, w.created, w.row); err != nil {
 					t.Fatalf("harness: reference write to %s failed: %v", c.name, err)
 				}
@@ -344,7 +374,7 @@ func TestTwoWayDifferential(t *testing.T) {
 				ik      []byte
 				created int64
 			}{{"current generation", ik, refBase - 500}, {"old (revoked) generation", ikOld, refBase - 7100}} {
-				d, err := kit.RefEncrypt(g.ik, ikID, g.created, refBase-10, payload)
+				d, err := kit.RefEncrypt(g.ik, refIkID, g.created, refBase-10, payload)
 				if err != nil {
 					t.Fatalf("harness: %v", err)
 				}
@@ -373,7 +403,7 @@ func TestTwoWayDifferential(t *testing.T) {
 					bad("the sidecar does not decrypt a reference-written record (%s) sent through the protobuf mapping: %v", g.name, st.sent[1])
 				}
 			}
-			if !refFirst {
+			if !refFirst || refRegion != c.region {
 				return
 			}
 			// the SDK adopts the reference-written current IK for its next write
@@ -381,8 +411,8 @@ func TestTwoWayDifferential(t *testing.T) {
 			if err != nil {
 				bad("encrypt over reference-written rows failed: %v", err)
 			}
-			if r.Key.ParentKeyMeta.ID != ikID || r.Key.ParentKeyMeta.Created != refBase-500 {
-				bad("the SDK did not adopt the valid reference-written IK (%s,%d) but used (%s,%d)", ikID, refBase-500, r.Key.ParentKeyMeta.ID, r.Key.ParentKeyMeta.Created)
+			if r.Key.ParentKeyMeta.ID != refIkID || r.Key.ParentKeyMeta.Created != refBase-500 {
+				bad("the SDK did not adopt the valid reference-written IK (%s,%d) but used (%s,%d)", refIkID, refBase-500, r.Key.ParentKeyMeta.ID, r.Key.ParentKeyMeta.Created)
 			}
 		}
 
@@ -434,7 +464,7 @@ func TestTwoWayDifferential(t *testing.T) {
 					if e.Parent != nil {
 						bad("system key row carries parent meta")
 					}
-				} else if rk.ID != ikID && rk.ID != kit.RefIKID(part+"-other", service, product, c.region) {
+				} else if rk.ID != ikID && rk.ID != kit.RefIKID(part+"-other", service, product, c.region) && rk.ID != refSkID && rk.ID != refIkID {
 					bad("unexpected key id %q in the store (expected %q or %q)", rk.ID, skID, ikID)
 				}
 				if e.Created != rk.Created {
